@@ -1420,13 +1420,193 @@ def check_C06(chk):
                         'the documented exceptions `repl` and `halt` are not run; --in-place is checked here only for leftover files (the call sequence is C18`s)']
 
 
-CHECKS = {'C06': check_C06, 'C19': check_C19, 'C04': check_C04, 'C14': check_C14, 'C16': check_C16, 'C20': check_C20, 'C07': check_C07, 'C13': check_C13, 'C12': check_C12, 'C17': check_C17, 'C18': check_C18, 'C15': check_C15, 'C09': check_C09, 'C08': check_C08, 'C11': check_C11, 'C10': check_C10, 'C01': check_C01, 'C02': check_C02, 'C03': check_C03}
+def run_sys_cases(cases, tag, hang_s=10, mem_gb=8):
+    """run cases through `harness sys run` (no tracing); a hang or a dying process is data: continue behind the case.
+    -> list of result records in case order"""
+    import subprocess, resource, time as _t
+    base = os.path.join(W, f'sys-{tag}')
+    shutil.rmtree(base, ignore_errors=True)
+    os.makedirs(base)
+    cp, op, ep = os.path.join(base, 'cases.ndjson'), os.path.join(base, 'out.ndjson'), os.path.join(base, 'stderr.txt')
+    with open(cp, 'w') as f:
+        for c in cases:
+            f.write(json.dumps(c) + '\n')
+    open(op, 'w').close()
+    def lim():
+        resource.setrlimit(resource.RLIMIT_AS, (mem_gb << 30, mem_gb << 30))
+    start = 0
+    hangs = {}
+    while start < len(cases):
+        with open(ep, 'wb') as ef:
+            p = subprocess.Popen([vlib.HARNESS, 'sys', 'run', cp, op, str(start), 'lazy'], cwd=base, stdout=subprocess.DEVNULL, stderr=ef, preexec_fn=lim)
+            last, t_last = -1, _t.time()
+            hung = False
+            while p.poll() is None:
+                _t.sleep(0.2)
+                n = os.path.getsize(op)
+                if n != last:
+                    last, t_last = n, _t.time()
+                elif _t.time() - t_last > hang_s:
+                    p.kill()
+                    hung = True
+            p.wait()
+        done = sum(1 for _ in open(op))
+        if done >= len(cases):
+            break
+        err = open(ep, 'rb').read()[-2000:].decode('utf-8', 'replace')
+        if hung:
+            end = 'hang'
+        elif 'memory allocation of' in err or 'has overflowed its stack' in err:
+            end = 'exhausted'
+        else:
+            end = 'died'
+        with open(op, 'a') as f:
+            f.write(json.dumps({'id': cases[done]['id'], 'items': 0, 'end': end, 'status': p.returncode, 'stderr': err[-300:]}) + '\n')
+            start = done + 1
+            # a filter that hangs on three argument tuples (an unbounded loop / allocation for huge counts) is not run on the
+            # remaining tuples: they are recorded as not run
+            grp = cases[done]['id'].split('#')[0]
+            if end == 'hang':
+                hangs[grp] = hangs.get(grp, 0) + 1
+                if hangs[grp] >= 3:
+                    while start < len(cases) and cases[start]['id'].split('#')[0] == grp:
+                        f.write(json.dumps({'id': cases[start]['id'], 'items': 0, 'end': 'hang', 'not_run': True}) + '\n')
+                        start += 1
+    return [json.loads(l) for l in open(op)]
+
+
+def check_C05(chk):
+    import subprocess
+    q = chk.tier == 'quick'
+    rng = random.Random(chk.seed)
+    chk.rule = ('the totality contract as a trace specification (Trace_Total: every started computation ends in outputs, a reported error, a rejection with rendered diagnostics, or halt; a panic, '
+                'an abort that is not resource exhaustion or a kill by a signal has no action). natives: every native filter and definition of the current tree (discovered at run time) x the '
+                'boundary pool supplied by TLC (55 values: 0, +-1, +-2^31, 2^53+1, +-2^63 and neighbours, 2^64, 2^70, floats incl. NaN, +-Infinity, -0.0, huge decimal literals, empty / multi-byte / '
+                'invalid UTF-8 / NUL strings, byte strings, empty and nested containers, arrays of code points and broken-down times, slice objects): as input for arity 0, input x argument '
+                'for arity 1 (quick: 400 per filter; thorough: all 3025), sampled (thorough: exhaustive over a 16-value sub-pool) for arity 2-3; all regex filters x 14 patterns x 6 flags x 4 '
+                'inputs. filter texts: every sequence of <= 2 (thorough 3) of 64 tokens, compiled; rejected ones must render diagnostics. documents: every sequence of <= 2 (3) tokens per format '
+                '(YAML 37, XML 30, TOML 29, CSV 15, JSON 28 tokens) through the decoders. Built with overflow checks and debug assertions; panics are caught and reported per case.')
+    vlib.build_harness()
+    def tlc_cases(suite, size):
+        res = vlib.run_tlc('MC_Total', f'SPECIFICATION Spec\nCONSTANTS\n Suite = "{suite}"\n Size = {size}\nINVARIANT TypeOK\nCHECK_DEADLOCK FALSE\n', f'C05-{suite}', workers=8, timeout=3600)
+        chk.add_tlc(res)
+        if not res['completed']:
+            raise ToolError(f'TLC did not complete on MC_Total/{suite}')
+        return [json.loads(l) for l in vlib.tagged_lines(res['out'], 'VEC')]
+    pool = tlc_cases('pool', 1)[0]['pool']
+    # TLC's integers are 32-bit: the extreme machine integers (as machine integers, not as big integers) are added here
+    pool += [{'t': 'int', 'n': -9223372036854775808}, {'t': 'int', 'n': 9223372036854775807}, {'t': 'arr', 'a': [{'t': 'int', 'n': -9223372036854775808}]}]
+    names = subprocess.run([vlib.HARNESS, 'sys', 'names'], stdout=subprocess.PIPE, text=True).stdout.split()
+    skipn = {'halt/0', 'halt/1', 'halt_error/0', 'halt_error/1', 'repl/0', 'repl/1', 'until/2', 'input/0', 'inputs/0'}
+    sub = [pool[i] for i in (0, 3, 5, 12, 14, 15, 18, 21, 22, 28, 30, 31, 36, 40, 42, 49)]
+    cases = []
+    def add(na, inp, args, k):
+        n, a = na.rsplit('/', 1)
+        vs = [[f'a{i}', v] for i, v in enumerate(args)]
+        call = n + ('(' + '; '.join('$' + x[0] for x in vs) + ')' if vs else '')
+        cases.append({'id': f'{na}#{k}', 'text': f'limit(3; $i | {call})', 'vars': [['i', inp]] + vs, 'cap': 4})
+    for na in names:
+        if na in skipn:
+            continue
+        a = int(na.rsplit('/', 1)[1])
+        if a == 0:
+            for k, v in enumerate(pool):
+                add(na, v, [], k)
+        elif a == 1:
+            combos = [(i, x) for i in pool for x in pool]
+            if q:
+                # all pairs of the same kind (most filters only work when input and argument fit), sampled for numbers, plus a random sample
+                kind = lambda v: 'num' if v['t'] in ('int', 'big', 'flt', 'nz', 'fsp', 'dec') else v['t']
+                same = [(i, x) for i, x in combos if kind(i) == kind(x)]
+                nums = [c for c in same if kind(c[0]) == 'num']
+                combos = [c for c in same if kind(c[0]) != 'num'] + rng.sample(nums, 150) + rng.sample(combos, 250)
+            for k, (i, x) in enumerate(combos):
+                add(na, i, [x], k)
+        else:
+            if q:
+                for k in range(300):
+                    add(na, rng.choice(pool), [rng.choice(pool) for _ in range(a)], k)
+            else:
+                import itertools
+                combos = list(itertools.product(sub, repeat=a + 1)) if a == 2 else []
+                combos += [tuple(rng.choice(pool) for _ in range(a + 1)) for _ in range(3000)]
+                for k, c in enumerate(combos):
+                    add(na, c[0], list(c[1:]), k)
+    S = lambda t: {'t': 'str', 'c': [ord(c) for c in t]}
+    pats = ['(?:(a)|(b))*', '(a)|(b)', '(a*)*', '\\b', '', '(', '[', '(?<n>a)(?<n2>b)?', '\\p{L}', '(?i)A', 'a|', '(.)(.)?', '$', '(?:)+']
+    for f in ('test', 'match', 'capture', 'scan', 'split', 'splits', 'sub', 'gsub', 'matches'):
+        for pi, pt in enumerate(pats):
+            for fl in ('', 'g', 'gx', 'n', 'gi', 'z'):
+                for ii, inp in enumerate(('ba', '', 'a\u00e4b', 'aXb\nab')):
+                    call = {'sub': f'sub($p; "x"; $f)', 'gsub': 'gsub($p; "\\(.)"; $f)', 'split': 'split($p; $f)', 'matches': 'matches($p; $f)'}.get(f, f'{f}($p; $f)')
+                    cases.append({'id': f'regex:{f}:{pi}:{fl}:{ii}', 'text': f'limit(6; $i | {call})', 'vars': [['i', S(inp)], ['p', S(pt)], ['f', S(fl)]], 'cap': 8})
+    # the filters of the manual (they reach the documented corners of every built-in and decoder, e.g. nested YAML anchors)
+    import corpus
+    skipc = re.compile(r'\b(halt|halt_error|repl|input|inputs)\b')
+    for e in corpus.examples():
+        if not skipc.search(e['text']):
+            cases.append({'id': 'manual:' + e['id'] + ':' + e['text'][:60], 'text': 'limit(20; ' + e['text'] + ')', 'vars': [], 'cap': 20})
+    # structured documents that short token sequences do not reach
+    ydocs = ['&a [&b 1, *b]', '&a [&b 1, *b, *a]', 'base: &base {name: &n foo}\nuse: *n\nall: *base', '[&b [&a [], *a], *b]', '&a {k: &b {k: &c [*c]}}', 'a: &x 1\nb: *x\n*x : 2', '&a [*a]', '- &a\n  - &b\n    - &c 1\n- *c\n- *b',
+             '{<<: {a: 1}, b: 2}', '? &k [1]\n: &v {a: *k}\n', '--- &a 1\n--- *a', '!!set {a, b}', '!!omap [a: 1]', '[!!int 1, !!float 1, !!str 1, !!bool true, !!null ~, !!binary YQ==]', '&a &b 1', '*a', '&a', '- - - - - - - - 1',
+             'a:\n  b:\n    c: &d\n      - *d']
+    for k, d in enumerate(ydocs):
+        cases.append({'id': f'yaml-doc:{d}', 'text': 'limit(6; $d | fromyaml) | (., tojson, toyaml)', 'vars': [['d', S(d)]], 'cap': 20})
+    n_native = len(cases)
+    size = 2 if q else 3
+    for t in tlc_cases('texts', size):
+        text = ''.join(chr(c) for c in t['text'])
+        cases.append({'id': 'text:' + text, 'text': text, 'mode': 'diag'})
+    n_text = len(cases) - n_native
+    for fmt, dec in (('yaml', 'fromyaml'), ('xml', 'fromxml'), ('toml', 'fromtoml'), ('csv', 'fromcsv, fromtsv'), ('json', 'fromjson')):
+        for d in tlc_cases(fmt, size):
+            cases.append({'id': f'{fmt}:' + ''.join(chr(c) if c >= 0 else f'\\x{-c:02x}' for c in d['doc']), 'text': f'limit(6; $d | {dec}) | (., tojson, toyaml)', 'vars': [['d', {'t': 'str', 'c': d['doc']}]], 'cap': 20})
+    # CBOR: byte sequences from heads x payloads
+    heads = [0x00, 0x17, 0x18, 0x19, 0x1a, 0x1b, 0x1c, 0x1f, 0x20, 0x38, 0x3b, 0x40, 0x41, 0x5f, 0x60, 0x61, 0x7f, 0x80, 0x81, 0x9f, 0xa0, 0xa1, 0xbf, 0xc0, 0xc2, 0xc3, 0xc4, 0xd8, 0xe0, 0xf4, 0xf6, 0xf7, 0xf8, 0xf9, 0xfa, 0xfb, 0xff]
+    tails = [[], [0], [0xff], [1, 2], [0x61, 0x61], [0xff, 0xff, 0xff, 0xff], [0x80], [0xf9, 0x7e, 0x00], [0x41, 0xff]]
+    for h1 in heads:
+        for h2 in ([None] + heads if not q else [None] + heads[::4]):
+            for tl in tails:
+                b = [h1] + ([h2] if h2 is not None else []) + tl
+                cases.append({'id': 'cbor:' + bytes(b).hex(), 'text': 'limit(6; $d | fromcbor) | (., tojson)', 'vars': [['d', {'t': 'bytes', 'y': b}]], 'cap': 12})
+    n_doc = len(cases) - n_native - n_text
+    res = run_sys_cases(cases, 'C05', hang_s=4)
+    by = {c['id']: c for c in cases}
+    tr = os.path.join(W, 'trace-C05.ndjson')
+    with open(tr, 'w') as f:
+        for r in res:
+            end = r['end']
+            end = 'halt' if end.startswith('{"c"') else 'does not compile' if end.startswith('does not compile') else end
+            f.write(json.dumps({'id': r['id'], 'end': end, 'panic': r.get('panic', ''), 'status': r.get('status', 0), 'stderr': r.get('stderr', '')}) + '\n')
+    tres = vlib.run_tlc('Trace_Total', 'SPECIFICATION Spec\nINVARIANTS Report\nCHECK_DEADLOCK FALSE\n', 'C05-trace', workers=1, timeout=7200, env_extra={'TRACE': tr}, xss='1g', heap='8g')
+    chk.add_tlc(tres)
+    summ = list(vlib.tagged_lines(tres['out'], 'RESULT'))
+    if not summ:
+        raise ToolError(f'Trace_Total did not consume the trace: {tres["out"]}')
+    for l in vlib.tagged_lines(tres['out'], 'REJECTED'):
+        r = json.loads(l)['rec']
+        c = by.get(r['id'], {})
+        vars_ = ' '.join(f"${n} = {json.dumps(v)[:80]}" for n, v in c.get('vars', []))
+        where = (r.get('panic') or r.get('stderr') or '')[:200]
+        # one finding per failing site: filter + panic message (argument values vary)
+        site = re.sub(r'\d+', 'N', where)[:120]
+        key = f"{r['id'].split('#')[0].split(':')[0] if r['id'].startswith(('yaml:', 'xml:', 'toml:', 'csv:', 'json:', 'cbor:', 'text:')) else r['id'].split('#')[0]}:{site}"
+        chk.violation(key, f"{r['end']}: `{c.get('text', '?')}` with {vars_}: {where}", {'case': c, 'result': r})
+    chk.evaluations += len(cases)
+    chk.traces += len(cases)
+    chk.extra.update({'filters_discovered': len(names), 'native_cases': n_native, 'filter_texts': n_text, 'documents': n_doc, 'ends': json.loads(summ[0])['counts']})
+    chk.assumptions += ['byte-level mutation of filter texts and documents is not done: texts and documents are all short sequences over a token alphabet per language (grammar-aware enumeration by TLC)',
+                        'exhaustion of stack or memory and non-termination are outside the claim (recorded as "exhausted" / "hang")',
+                        'the panic!() arms that rely on invariants of third-party parsers are reached only as far as these inputs reach them']
+
+
+CHECKS = {'C05': check_C05, 'C06': check_C06, 'C19': check_C19, 'C04': check_C04, 'C14': check_C14, 'C16': check_C16, 'C20': check_C20, 'C07': check_C07, 'C13': check_C13, 'C12': check_C12, 'C17': check_C17, 'C18': check_C18, 'C15': check_C15, 'C09': check_C09, 'C08': check_C08, 'C11': check_C11, 'C10': check_C10, 'C01': check_C01, 'C02': check_C02, 'C03': check_C03}
 
 
 def main():
     pid, tier = sys.argv[1], sys.argv[2]
     tier = os.environ.get('VERIF_TIER', tier) if tier not in ('quick', 'thorough') else tier
-    chk = Check(pid, tier)
+    chk = Check(pid, tier, level='exploration' if pid == 'C05' else 'model_checking')
     try:
         vlib.build_harness()
         CHECKS[pid](chk)
